@@ -510,6 +510,12 @@ pub fn spaces(tier: Tier) -> Vec<Box<dyn Space>> {
     } else {
         ATOMS.iter().filter(|a| !a.contains('\0')).flat_map(|a| [format!("{a} "), format!("{a}\n")]).collect()
     };
+    // plus every string atom inside a literal of either quote (escapes make the lexer build the text in a buffer)
+    let mut deep_units = deep_units;
+    for a in STRING_ATOMS.iter().filter(|a| !a.contains(['"', '\'', '\n', '\r'])) {
+        deep_units.push(format!("\"{a}\"\n"));
+        deep_units.push(format!("'x{a}' "));
+    }
     v.push(Box::new(DeepLex { units: deep_units, ks: if t { vec![17, 20] } else { vec![20] } }));
     // thinned for the subprocess runs
     let cli_units: Vec<String> = units.iter().step_by(if t { 7 } else { 41 }).cloned().collect();
